@@ -642,7 +642,12 @@ def eliminate_full_outer_join(expression: exp.Expr) -> exp.Expr:
             if join.side == "FULL"
         ]
 
-        if len(full_outer_joins) == 1:
+        if (
+            len(full_outer_joins) == 1
+            and expression.args.get("from_")
+            and (full_outer_joins[0][1].args.get("on") or full_outer_joins[0][1].args.get("using"))
+        ):
+            # (without a FROM clause or a join condition there is nothing to build the anti-join from)
             expression_copy = expression.copy()
             expression.set("limit", None)
             index, full_outer_join = full_outer_joins[0]
